@@ -516,6 +516,52 @@ def rule_who_writes(ctx):
 VOTE_STATE = ("view_number", "phase", "high_vote")
 
 
+def _success_returns(ctx, f, P):
+    """Blocks where the function's result may become a success: an `Ok(..)` stored into a return place (or an alias of
+    it after helper inlining), a call / awaited value stored into a return place whose outcome is not known to be an
+    error. The result of the persist call itself (possibly through wrap / map_err) is not a target: it is Ok exactly
+    when the backup succeeded."""
+    T = ctx.T(f)
+    RL = Q.ret_locals(f)
+    out = []
+    for bi, b in enumerate(f.blocks):
+        for st in b["s"]:
+            if st["k"] != "assign" or st["p"].get("pr") or st["p"]["l"] not in RL:
+                continue
+            r = st["r"]
+            if r["k"] == "agg":
+                if r.get("variant") == "Ok" or (r.get("def") not in ("std::result::Result",) and r.get("variant") not in ("Err", "Ready", "Pending")):
+                    if r.get("variant") == "Ok":
+                        out.append(bi)
+                continue
+            if r["k"] == "use":
+                pl = r["o"].get("m") or r["o"].get("c")
+                if pl is not None and not pl.get("pr") and pl["l"] in RL:
+                    continue        # alias of another return place
+                if pl is not None and pl.get("pr") and pl["l"] in RL or (pl is not None and len(pl.get("pr", [])) == 2 and isinstance(pl["pr"][0], dict) and pl["pr"][0].get("d") == "Ready"):
+                    t = strip(T.rvalue(r), RESULT_ADAPTERS)
+                    if Q.is_await_of(t, P):
+                        continue
+                    # the value of a spliced helper's return place arrives through its own assignments
+                    src = pl["l"]
+                    if all(s2["r"]["k"] == "agg" and s2["r"].get("def") == "std::task::Poll" for b2 in f.blocks for s2 in b2["s"] if s2["k"] == "assign" and not s2["p"].get("pr") and s2["p"]["l"] == src) and \
+                            not any(b2["t"]["k"] == "call" and not b2["t"]["dest"].get("pr") and b2["t"]["dest"]["l"] == src for b2 in f.blocks):
+                        continue
+                    out.append(bi)
+                    continue
+            if f.locals[st["p"]["l"]].s.startswith("std::result::Result<"):
+                out.append(bi)
+        t = b["t"]
+        if t["k"] == "call" and not t["dest"].get("pr") and t["dest"]["l"] in RL and "t" in t and f.locals[t["dest"]["l"]].s.startswith("std::result::Result<"):
+            if "decl" in t["f"] and f.callee(t)[0].qname == "std::ops::FromResidual::from_residual":
+                continue
+            ct = strip(T.call_term(t), RESULT_ADAPTERS)
+            if Q.is_await_of(ct, P) or Q.is_call_of(ct, P):
+                continue
+            out.append(t["t"])
+    return sorted(set(out))
+
+
 def rule_never_dirty(ctx):
     R = "C03.11"
     ctx.rule(R, "vote-relevant state is never left dirty: after every write to view_number / phase / high_vote (outside the constructor) a successful return is reachable only through the success of the awaited backup - otherwise the durable record lags the replica's memory and a restart forgets a vote or a view")
@@ -534,13 +580,15 @@ def rule_never_dirty(ctx):
             continue
         edges = Q.success_edges(ctx, f, lambda b: Q.is_await_of(b, P))
         cfg = ctx.cfg(f, with_cancel=False)
-        rets = set(bb for bb, how in Q.return_blocks_maybe_ok(ctx, f))
+        rets = set(_success_returns(ctx, f, P))
         for field, sites in sorted(wr.items()):
             for bb, ln in sites:
                 n += 1
                 r = cfg.reach_from([bb], avoid_edges=frozenset(edges))
-                # the write's own block may contain the persist call's poll loop only after the statement: reach_from starts at the block
                 bad = sorted(rets & r)
+                if bad and edges:
+                    r = cfg.reach_from_sensitive([bb], avoid_edges=frozenset(edges))
+                    bad = sorted(rets & r)
                 ctx.ob(R, "%s := .. in %s" % (field, rq.split("::")[-1]), not bad and bool(edges),
                        "every successful return after the write passes the backup's success" if not bad and edges else
                        "self.%s is changed and the function can return successfully without a later successful state backup (the persisted state no longer records what the replica did)" % field, f.loc(ln))
